@@ -406,6 +406,11 @@ pub fn run(seed: u64, n: usize, out: &mut dyn Write) {
                                     eprintln!("DIFF status {:?} {:?}", g_t.as_ref().map(|x| x.is_ok()), g_lib.as_ref().map(|x| x.is_ok()));
                                 }
                             }
+                            // the file written by the program cannot be read back / generated from although the same training in
+                            // process can: C15 on the program itself
+                            if matches!(g_t, Some(Err(())) | None) && matches!(g_lib, Some(Ok(_))) {
+                                diffs.push("train-model-unreadable".to_string());
+                            }
                             diffs.push(if repro { "train-model-differs".to_string() } else { "train-not-reproducible-in-process".to_string() });
                         }
                     }
